@@ -6,8 +6,9 @@ CONSTANTS
   Types = {"result", "error", "errorBare", "set", "get"}
   OpenKinds = {"plain", "sm", "smr", "resumed"}
   Cids = {"fresh", "empty", "dup"}
-  IdRule = "replace"
+  IdRule = "keep"
   MaxHist = 99
-VIEW GenViewNoCid
-ACTION_CONSTRAINT EmitBehaviour
+INVARIANTS TypeOK AtMostOnce DoneOnce NonePending
+PROPERTIES WrongSender RightSender FreshOpen
+VIEW View
 CHECK_DEADLOCK FALSE
